@@ -1,6 +1,8 @@
 package main
 
 import (
+	"go/types"
+	"golang.org/x/tools/go/ssa"
 	"encoding/json"
 	"flag"
 	"fmt"
@@ -122,7 +124,95 @@ func generate(w *World, prop string, only string) *genResult {
 			r.obls = append(r.obls, g.obls...)
 		}
 	}
+	// package-wide structural disciplines
+	for _, u := range w.cs.Units {
+		for _, fd := range u.FieldDisciplines {
+			if prop != "" && !hasTag(fd.Tags, prop) {
+				continue
+			}
+			if sp := w.pkgs[u.Pkg]; sp != nil {
+				r.obls = append(r.obls, fieldDisciplineObl(w, u, sp, fd))
+			} else {
+				r.errors = append(r.errors, fmt.Sprintf("discipline %s.%s: package %s not loaded", fd.Struct, fd.Field, u.Pkg))
+			}
+		}
+	}
 	return r
+}
+
+// fieldDisciplineObl: every function of the package (closures included) that addresses or reads the
+// field must be on the allowed list.  Decided from the SSA; the obligation's goal is the verdict.
+func fieldDisciplineObl(w *World, u *Unit, sp *ssa.Package, fd FieldDiscipline) *Obl {
+	allowed := map[string]bool{}
+	for _, a := range fd.Allowed {
+		allowed[a] = true
+	}
+	var offenders []string
+	var visit func(fn *ssa.Function)
+	seen := map[*ssa.Function]bool{}
+	visit = func(fn *ssa.Function) {
+		if fn == nil || seen[fn] {
+			return
+		}
+		seen[fn] = true
+		key := w.keyOf(fn)
+		root := key
+		if i := strings.Index(root, "$"); i > 0 {
+			root = root[:i]
+		}
+		for _, b := range fn.Blocks {
+			for _, in := range b.Instrs {
+				var st *types.Struct
+				var named types.Type
+				idx := -1
+				switch x := in.(type) {
+				case *ssa.FieldAddr:
+					named = x.X.Type().Underlying().(*types.Pointer).Elem()
+					st, _ = named.Underlying().(*types.Struct)
+					idx = x.Field
+				case *ssa.Field:
+					named = x.X.Type()
+					st, _ = named.Underlying().(*types.Struct)
+					idx = x.Field
+				}
+				if st == nil || idx < 0 {
+					continue
+				}
+				if n, ok := types.Unalias(named).(*types.Named); ok && n.Obj().Name() == fd.Struct && n.Obj().Pkg() == sp.Pkg && st.Field(idx).Name() == fd.Field {
+					if !allowed[root] {
+						offenders = append(offenders, key)
+					}
+				}
+			}
+		}
+		for _, an := range fn.AnonFuncs {
+			visit(an)
+		}
+	}
+	for _, m := range sp.Members {
+		switch x := m.(type) {
+		case *ssa.Function:
+			visit(x)
+		case *ssa.Type:
+			for _, t := range []types.Type{x.Type(), types.NewPointer(x.Type())} {
+				ms := w.prog.MethodSets.MethodSet(t)
+				for i := 0; i < ms.Len(); i++ {
+					if fn := w.prog.MethodValue(ms.At(i)); fn != nil && fn.Pkg == sp {
+						visit(fn)
+					}
+				}
+			}
+		}
+	}
+	sort.Strings(offenders)
+	goal := "true"
+	clause := fmt.Sprintf("field %s.%s is only touched by %s", fd.Struct, fd.Field, strings.Join(fd.Allowed, ", "))
+	if len(offenders) > 0 {
+		goal = "false"
+		clause += "; offenders: " + strings.Join(offenders, ", ")
+	}
+	g := &gen{w: w, declared: map[string]bool{}}
+	return &Obl{Name: fmt.Sprintf("%s#field.%s.%s", u.PkgName, fd.Struct, fd.Field), Func: u.PkgName, Clause: clause, Goal: goal, G: g, Kind: "discipline", Tags: fd.Tags}
 }
 
 func (g *gen) runLemma() {
